@@ -63,6 +63,11 @@ def make_case(cid, rng, schema, root, n_ops, every, name_k=0):
     from ..framework import is_v2
     full = [{"op": "lib_create" if is_v2(schema) else "create", "schema": schema, "dir": d}]
     marks = [None]
+    if name_k % 5 == 3:
+        # a library whose ids are those of a long-lived one (around 2^31 / 2^32 / 2^53)
+        pre = GH.first_id_prelude(schema, GH.FIRST_IDS[(name_k // 5) % len(GH.FIRST_IDS)])
+        full += pre
+        marks += [None] * len(pre)
     for i, (op, m) in enumerate(zip(ops, metas)):
         full.append(op)
         marks.append(m)
